@@ -27,7 +27,7 @@ def run(rep, kf, tier, seed):
         def task(i=i, n=n):
             r = core.Report("C18", tier, seed)
             cs = []
-            for suffix in ("Req", "Opt"):
+            for suffix in ("Req", "Opt", "Extra"):
                 cname = f"Cap{i}{suffix}"
                 modname = utils.snake_case(cname)
                 try:
@@ -82,6 +82,19 @@ def run(rep, kf, tier, seed):
         else:
             r, n = res, None
         bad = [o for o in r.obligations if o.status == core.REFUTED]
+        und = [o for o in r.obligations if o.status == core.UNDECIDED]
+        if und and n is not None:
+            # the engine could not decide (typically: a template loop variable is used after the loop -- which is what a capture
+            # by a loop variable looks like): the real generated code decides, natively
+            from pyvc import fragnative
+            why = fragnative.capture_violation(n)
+            if why:
+                for o in und:
+                    o.status = core.REFUTED
+                    o.detail = f"native run: {why[:300]}   [engine: {o.detail[:120]}]"
+                    o.witness = {"kind": "call", "qualname": "pyvc.fragnative:capture_violation", "args": [], "kwargs": {"name": n},
+                                 "violates": "result is not None"}
+                bad = bad + und
         if bad and n is not None:
             failing[n] = [o.id for o in bad]
             if n in known:
